@@ -433,7 +433,7 @@ func c08Directed() []C08Case {
 	for _, tc := range []struct {
 		text     string
 		min, max uint64
-	}{{"Zürich", 0, 6}, {"Zürich", 0, 5}, {"Zürich", 6, 6}, {"Zürich", 7, 9}, {"éé", 3, 9}, {"éé", 2, 2}, {"日本語", 0, 3}, {"日本語", 4, 9}, {"abc", 3, 3}} {
+	}{{"Zürich", 0, 6}, {"Zürich", 0, 5}, {"Zürich", 6, 6}, {"Zürich", 7, 9}, {"éé", 3, 9}, {"éé", 2, 2}, {"日本語", 0, 3}, {"日本語", 4, 9}, {"abc", 3, 3}, {"𝄞𝄞", 0, 2}, {"𝄞𝄞", 3, 9}, {"𝄞𝄞", 2, 2}} {
 		tc := tc
 		str := &GSchema{HasTypes: true, Types: []string{"string"}, MinLen: tc.min, MaxLen: up(tc.max)}
 		add(200, "application/json; charset=utf-8", `{"name":"`+tc.text+`"}`, func(c *C08Case) {
